@@ -1106,9 +1106,6 @@ class Response:
 
         """
 
-        if overwrite:
-            self.unset_cookie(name, strict=False)
-
         value = bytes_(value, "utf-8")
         cookie = make_cookie(
             name,
@@ -1121,6 +1118,13 @@ class Response:
             comment=comment,
             samesite=samesite,
         )
+
+        # only once the new cookie is known to be valid: a refused call must
+        # not have removed the cookie it was going to replace
+
+        if overwrite:
+            self.unset_cookie(name, strict=False)
+
         self.headerlist.append(("Set-Cookie", cookie))
 
     def delete_cookie(self, name, path="/", domain=None):
